@@ -11,7 +11,9 @@ sqlparse (0.6.0) is third‑party code: its regex lexer (`sqlparse/keywords.py:1
 `StatementSplitter.process` (`engine/statement_splitter.py:155`) are MODELLED here, not verified.  The model is a
 one‑character state machine (`lex = flush ∘ foldl step`) producing a token list, followed by the splitter on tokens.
 
-What was observed of sqlparse and is mirrored (each item was reproduced with `/venv/bin/python`, see `harness/c05.py`):
+What was observed of sqlparse 0.6.0 and is mirrored (each example below was run against the real `sqlparse` /
+`helpers.split` with `/venv/bin/python` while this model was written; the mirrored part is re-checked on every run by
+`harness/c05.py`, exact piece texts included):
   * a statement ends at a `;` token; after it, *non‑newline whitespace tokens and plain line comments* (`-- …\n`, `# …\n`,
     the comment token includes its newline) still belong to the ended piece (`consume_ws`, `EOS_TTYPE`); the first token
     of any other kind — a newline, a block comment, a hint comment, another `;`, code — starts the next piece:
